@@ -49,8 +49,25 @@ pub fn bare_environment(boot_seed: u64) -> bool {
     boot_seed & 1 == 1
 }
 
+/// Every process that executes code under test does so from an empty directory of its own under
+/// the temp directory: whatever that code does to RELATIVE paths behind the seams' back
+/// (`Path::exists`, a new `std::fs` call nobody intercepted) meets nothing and litters nothing.
+/// Removed again by `leave_private_cwd` at the end of the process.
+pub fn enter_private_cwd() {
+    let d = std::env::temp_dir().join(format!("verif-cwd-{}", std::process::id()));
+    let _ = std::fs::create_dir_all(&d);
+    let _ = std::env::set_current_dir(&d);
+}
+
+pub fn leave_private_cwd() {
+    let d = std::env::temp_dir().join(format!("verif-cwd-{}", std::process::id()));
+    let _ = std::env::set_current_dir("/");
+    let _ = std::fs::remove_dir_all(&d);
+}
+
 pub fn boot(boot_seed: u64) {
     CURRENT.store(boot_seed, std::sync::atomic::Ordering::Relaxed);
+    enter_private_cwd();
     if bare_environment(boot_seed) {
         let names: Vec<std::ffi::OsString> = std::env::vars_os().map(|(k, _)| k).collect();
         for k in names {
